@@ -650,14 +650,15 @@ Definition decode (k : conf) (all : list N) : result cstate :=
 (* Maximal runs as the three loops of the writer find them:
      end = begin + 1; while (end < max && <element at end continues the run started at begin>) ++end;
    `rel first off x` = the element x, off places after the first one of the run, continues it. *)
-Fixpoint group_aux {A} (rel : A -> N -> A -> bool) (first : A) (off : N) (cur : list A) (l : list A) : list (list A) :=
+Fixpoint group_aux {A} (rel : A -> N -> A -> bool) (first : A) (off : N) (l : list A) : list A * list (list A) :=
   match l with
-  | [] => [rev cur]
-  | x :: t => if rel first off x then group_aux rel first (off + 1) (x :: cur) t
-              else rev cur :: group_aux rel x 1 [x] t
+  | [] => ([], [])
+  | x :: t => if rel first off x
+              then let cg := group_aux rel first (off + 1) t in (x :: fst cg, snd cg)    (* x continues the current run *)
+              else let cg := group_aux rel x 1 t in ([], (x :: fst cg) :: snd cg)        (* x starts the next run *)
   end.
 Definition groups {A} (rel : A -> N -> A -> bool) (l : list A) : list (list A) :=
-  match l with [] => [] | x :: t => group_aux rel x 1 [x] t end.
+  match l with [] => [] | x :: t => let cg := group_aux rel x 1 t in (x :: fst cg) :: snd cg end.
 
 (* ---- normalisation before the save (state_write_content) ---- *)
 
